@@ -1287,6 +1287,85 @@ def profile_clitmpl(rnd, n, thorough, out):
     shutil.rmtree(cwd, ignore_errors=True)
 
 
+def libtrace_case(line):
+    """a `libmon` case (event log of the library's run_parallel, canonicalised by harness/src/libpar.rs)
+    as a trace-inclusion case of the driver model: no cancellation, no keep, results from the files'
+    ground truth; files in creation order"""
+    t = line.split(" ")
+    if t[0] != "libmon":
+        return None
+    jobs, mgmt, nf = int(t[1]), unhx(t[2]), int(t[3])
+    i = 4
+    files = []
+    for _ in range(nf):
+        files.append((unhx(t[i]), t[i + 1] == "1"))
+        i += 2
+    nev = int(t[i]); i += 1
+    evs, sess, created = [], {}, []
+    mg = set()
+    for _ in range(nev):
+        k = t[i]
+        if k in ("create", "drop"):
+            d = unhx(t[i + 1]); i += 2
+            evs.append((k, d))
+            if k == "create":
+                created.append(d)
+        elif k == "connect":
+            sid, d = int(t[i + 1]), unhx(t[i + 2]); i += 3
+            if d == mgmt:
+                mg.add(sid)
+            else:
+                sess[sid] = (len(sess), d)
+                evs.append(("connect", sess[sid][0], d))
+        elif k == "sql":
+            sid, text = int(t[i + 1]), unhx(t[i + 2]); i += 3
+            if sid in sess:
+                evs.append(("sql", sess[sid][0], sess[sid][1], text))
+        elif k == "eof":
+            sid = int(t[i + 1]); i += 2
+            if sid in sess:
+                evs.append(("eof", sess[sid][0], sess[sid][1]))
+        else:
+            return None
+    if len(created) != nf or jobs == 0:
+        return None
+    dbs = created
+    res = ["err" if failed else "ok" for _, failed in files]
+    labels, gave_up = find_labels(jobs, False, False, dbs, res, [False] * nf, evs, False)
+    if gave_up:
+        return None
+    def ev_tok(e):
+        if e[0] in ("create", "drop"):
+            return f"{e[0]} {hx(e[1])}"
+        if e[0] == "connect":
+            return f"connect {e[1]} {hx(e[2])}"
+        if e[0] == "sql":
+            return f"sql {e[1]} {hx(e[3])}"
+        return f"eof {e[1]}"
+    s = f"clitrace {jobs} 0 0 {nf}" + "".join(f" {hx(f)} {hx(d)}" for (f, _), d in zip(files, dbs))
+    labels = labels or []
+    s += f" {len(labels)}" + "".join(" " + l for l in labels)
+    s += f" {len(evs)}" + "".join(" " + ev_tok(e) for e in evs)
+    s += f" {len(res)}" + "".join(" " + r for r in res)
+    return s
+
+
+def libtrace_dir(outdir):
+    """append the trace-inclusion cases derived from the `libmon` cases of a generated profile"""
+    rd = lambda n: open(os.path.join(outdir, n)).read().split("\n")
+    cases, tags = rd("cases.txt"), rd("tags.txt")
+    add = []
+    for c, tg in zip(cases, tags):
+        x = libtrace_case(c)
+        if x is not None:
+            add.append((x, tg))
+    with open(os.path.join(outdir, "cases.txt"), "a") as fc, open(os.path.join(outdir, "impl.txt"), "a") as fi, \
+            open(os.path.join(outdir, "tags.txt"), "a") as ft, open(os.path.join(outdir, "expect.txt"), "a") as fe:
+        for x, tg in add:
+            fc.write(x + "\n"); fi.write("accept\n"); ft.write(tg + " [trace inclusion in the driver LTS]\n"); fe.write("-\n")
+    return len(add)
+
+
 def replay_line(line):
     """re-run a deterministic case on the current CLI build"""
     t = line.split(" ")
@@ -1337,6 +1416,8 @@ def main():
         PROFILES[prof](rnd, n, tier == "thorough", out)
         out.close()
         print(out.n)
+    elif sys.argv[1] == "libtrace":
+        print(libtrace_dir(sys.argv[2]))
     elif sys.argv[1] == "replay":
         for line in sys.stdin:
             print(replay_line(line.rstrip("\n")))
